@@ -11,7 +11,7 @@ import tempfile
 
 import rx
 
-from ..common import Check, Outcome, Snap, subscribe, subscribe2, bootstrap, norm, WORK
+from ..common import FILE_NAME_TAGS, Check, Outcome, Snap, subscribe, subscribe2, bootstrap, norm, WORK
 
 rs = bootstrap()
 from ..progs import call          # noqa: E402  (positional / keyword calling conventions, see progs.call)
@@ -121,7 +121,7 @@ class C19(Check):
             'Object counts 0, 1, few, and enough to fill 1..5 read chunks of 64 KiB. non-trivial = >= 2 objects; distinct = hash of the case')
     ASSUMPTIONS = ['orjson / json are trusted as JSON codecs; floats are finite; top-level items are dicts (domain of the property)']
     ANCHORS = ['rxsci/container/json.py', 'rxsci/io/file.py', 'rxsci/framing/line.py', 'rxsci/data/codec.py']
-    REQUIRED_TAGS = ['none', 'gzip', 'zstd', 'stream', 'path', 'fileobj', 'open_obj', 'empty', 'multi-chunk', 'astral', 'whole-document', 'over-1MiB-compressible', 'gzip-ratio>32-over-2MiB', 'pushed-source', 'open_obj-with-short-reads', 'bom', 'open_obj-stdlib-codec', 'loader-built-before-the-dump', 'target-exists-empty']
+    REQUIRED_TAGS = FILE_NAME_TAGS + ['none', 'gzip', 'zstd', 'stream', 'path', 'fileobj', 'open_obj', 'empty', 'multi-chunk', 'astral', 'whole-document', 'over-1MiB-compressible', 'gzip-ratio>32-over-2MiB', 'pushed-source', 'open_obj-with-short-reads', 'bom', 'open_obj-stdlib-codec', 'loader-built-before-the-dump', 'target-exists-empty']
     REQUIRED_OBSERVED = ['objects_compared', 'twin_dumps_read_back']
 
     def __init__(self):
@@ -174,6 +174,11 @@ class C19(Check):
                    'compression': comps[k % 3], 'mode': modes[(k // 3) % 6]}
 
     def evaluate(self, case):
+        from ..common import in_dir
+        with in_dir(self._tmpdir()):
+            return self._evaluate(case)
+
+    def _evaluate(self, case):
         out = Outcome()
         objs = build_objs(case['objs'])
         comp = case['compression']
@@ -226,7 +231,8 @@ class C19(Check):
         else:
             size = None
             if mode == 'path':
-                path = os.path.join(self._tmpdir(), 'f.json')
+                from ..common import file_path
+                path = file_path(self._tmpdir(), 'f.json', '.json', case['objs']['oseed'] // 7, out)
                 if os.path.exists(path):
                     os.unlink(path)
                 prior = case['objs']['oseed'] % 3
